@@ -389,7 +389,8 @@ Definition user_arg_pinned (keyspec : str) (k : kind) (iv : str) (man hid dep : 
 (** what is evaluated from the command line *)
 Inductive cmd :=
 | CmdPrintHidden | CmdPrintDeprecated | CmdHelpShort | CmdHelpLong
-| CmdHelp | CmdHelpArg (k : str).
+| CmdHelp | CmdHelpArg (k : str)
+| CmdSubHelp (i : nat).   (* the key of the i-th sub-group, then that handler's -h / --help *)
 
 Record hstate := mkh { hp : params; hout : list str; herr : list str; hprinted : bool }.
 
@@ -439,6 +440,7 @@ Definition eval_cmd_gen (t1 t2 : utext) (vh vd : bool) (f : N) (width : nat) (ar
         | HelpUnknown ls => Ok (mkh p (hout s) (herr s ++ ls) true)
         end
       else Err EOther
+  | CmdSubHelp _ => Err EOther   (* a handler without sub-groups: see eval_cmd_sg *)
   end.
 
 (** after the repair (fix: create the flag arguments before the constructor
@@ -484,6 +486,98 @@ Definition eval_case_txt (t1 t2 : utext) (f : N) (width : nat) (user : list arg)
   : res hstate :=
   do _ <- check_texts t1 t2;
   eval_case_with (eval_cmd_txt t1 t2) f width user cs.
+
+(* ------------------------------------------------------------------ *)
+(** * one level of sub-groups, as far as the usage is concerned
+
+    The main handler owns sub-group arguments
+    (addArgument( spec, Handler& subGroup, desc)); each sub-group handler was
+    created with Handler( main_ah, flags): it writes to the streams of the main
+    handler and SHARES its usage parameters object (mpUsageParams), so display
+    settings changed on the main command line are in force when the usage of a
+    sub-group is printed.  On the command line the key of the sub-group is
+    followed by arguments for the sub-group handler (Handler::processArg feeds
+    them to evalSingleArgument of that handler as long as it consumes them):
+    "-ih" / "-i -h" / "--input --help" prints the usage of the sub-group.  That
+    sets mUsagePrinted of the sub-group handler only: the final checks of the
+    main handler still run. *)
+Record sub_group := mksg {
+  sg_key : Key.key;      (* key of the sub-group argument in the main handler *)
+  sg_desc : str;         (* its description in the usage of the main handler *)
+  sg_flags : N;          (* flags of the sub-group handler: only the help bits are modelled *)
+  sg_user : list arg     (* the arguments added to the sub-group handler *)
+}.
+
+(** the entry of a sub-group in the main handler's usage: TypedArgSubGroup is
+    optional, visible, prints no default value *)
+Definition sub_arg (g : sub_group) : arg :=
+  mkarg (sg_key g) false false false [] false None [] [] [] (sg_desc g).
+
+(** the arguments of the sub-group handler: its constructor only calls
+    handleStartFlags (no "print-hidden") *)
+Definition sub_args (g : sub_group) : list arg :=
+  start_args (N.land (sg_flags g) 3%N) ++ sg_user g.
+
+(** Handler::helpArgument with sub-groups: mArguments first, then
+    mSubGroupArgs; the description comes from the one description list *)
+Definition help_argument_sg (abbr : bool) (margs : list arg) (sgs : list sub_group) (ks : str)
+  : res help_result :=
+  if Key.mem SLASH ks then Err EOther
+  else
+    do k <- Key.parse_key ks;
+    do f <- Table.find_arg abbr (arg_table margs) k;
+    do f2 <- match f with
+             | Some a => Ok (Some a)
+             | None => Table.find_arg abbr (arg_table (map sub_arg sgs)) k
+             end;
+    match f2 with
+    | Some a =>
+        Ok (HelpOut ((S_ARGUMENT ++ key_text_all k ++ S_ARG_USAGE)
+                     :: attach [] (format_lines 3 80 true
+                                     (get_arg_desc (margs ++ map sub_arg sgs) (akey a)))))
+    | None => Ok (HelpUnknown [S_ERR_ARG ++ ks ++ S_ERR_UNKNOWN])
+    end.
+
+(** one argument from the command line of a main handler with sub-groups;
+    [margs]: the arguments in the main handler's own container *)
+Definition eval_cmd_sg (t1 t2 : utext) (sgs : list sub_group) (f : N) (width : nat) (margs : list arg)
+    (s : hstate) (c : cmd) : res hstate :=
+  let p := hp s in
+  match c with
+  | CmdSubHelp i =>
+      match nth_error sgs i with
+      | None => Err EOther
+      | Some g =>
+          if negb (N.eqb (N.land (sg_flags g) 3%N) 0%N) && has f hfUsageCont then
+            if print_fails p (sub_args g) then Err ERuntime
+            else Ok (mkh p (hout s ++ usage_lines p width (sub_args g)) (herr s) (hprinted s))
+          else Err EOther
+      end
+  | CmdHelpArg k =>
+      if has f hfHelpArg && has f hfUsageCont then
+        do r <- help_argument_sg (negb (has f hfNoAbbr)) margs sgs k;
+        match r with
+        | HelpOut ls => Ok (mkh p (hout s ++ ls) (herr s) true)
+        | HelpUnknown ls => Ok (mkh p (hout s) (herr s ++ ls) true)
+        end
+      else Err EOther
+  | _ => eval_cmd_gen t1 t2 true true f width (margs ++ map sub_arg sgs) s c
+  end.
+
+Definition eval_case_sg (t1 t2 : utext) (sgs : list sub_group) (f : N) (width : nat) (user : list arg)
+    (cs : list cmd) : res hstate :=
+  do _ <- check_texts t1 t2;
+  let margs := start_args f ++ user in
+  do s <- eval_cmds_with (eval_cmd_sg t1 t2 sgs) f width margs (mkh (start_params f) [] [] false) cs;
+  if hprinted s then Ok s
+  else if existsb mandatory margs then Err ERuntime
+  else Ok s.
+
+(** the pinned-style variant for the seeded defect "the sub-group takes a
+    private copy of the usage parameters": the sub-group usage is printed with
+    the parameters as they were when the handlers were constructed *)
+Definition sub_usage_copied (f : N) (width : nat) (g : sub_group) : list str :=
+  usage_lines (start_params f) width (sub_args g).
 
 (* ------------------------------------------------------------------ *)
 (** * the layout-insensitive reading of a usage text (the property observable)
